@@ -1100,6 +1100,12 @@ size_t ReadLnCont(FILE* Datei, as_dynstr_t* p_line) {
                 pDest[--l] = '\0';
                 if ((l > 0) && (pDest[l - 1] == '\r')) {
                     pDest[--l] = '\0';
+                } else if ((l == 0) && (Count > 0) && (p_line->p_str[Count - 1] == '\r')) {
+                    /* the buffer ended between CR and LF: the CR is the last
+                       character of the previous chunk */
+
+                    p_line->p_str[--Count] = '\0';
+                    pDest--;
                 }
             }
 
